@@ -1,6 +1,7 @@
 package props
 
 import (
+	"time"
 	"fmt"
 
 	"verifharness/internal/enum"
@@ -21,7 +22,7 @@ func c03Grammar(maxW int) *enum.Grammar {
 	}
 	stmts := []enum.Prod{
 		leaf("5", model.Int(5)), leaf("(t! 1)", form("t!", model.Int(1))), leaf("(t! 2)", form("t!", model.Int(2))),
-		leaf("(g)", form("g")), leaf("(boom!)", form("boom!")), leaf("(pan!)", form("pan!")), leaf("(pans!)", form("pans!")),
+		leaf("(g)", form("g")), leaf("(boom!)", form("boom!")), leaf("(boomw!)", form("boomw!")), leaf("(pan!)", form("pan!")), leaf("(pans!)", form("pans!")),
 		leaf("(m)", form("m")), leaf("(mx)", form("mx")), leaf("e", sym("e")), leaf("x", sym("x")),
 		leaf("'(t! 9)", q(form("t!", model.Int(9)))), leaf("(list 't! 9)", form("list", q(sym("t!")), model.Int(9))),
 		{Name: "throw", Weight: 1, Kids: []int{TV}, Build: func(k []V) V { return form("throw", k[0]) }},
@@ -95,7 +96,7 @@ func init() {
 		}
 		fam := &vf.Family{
 			Name:   "try-nests",
-			Bounds: "all try forms of weight <=5 (quick) / <=6 (thorough): 0-2 body forms, optional (catch e 1-2 forms), optional (finally 0-2 forms), statements from 13 leaves (incl. a macro that throws while expanding) + (throw V) over 8 thrown objects + nested try; under a prelude defining a throwing function, a throwing macro and an outer let variable",
+			Bounds: "all try forms of weight <=5 (quick) / <=6 (thorough): 0-2 body forms, optional (catch e 1-2 forms), optional (finally 0-2 forms), statements from 14 leaves (incl. a macro that throws while expanding and a Go builtin whose error wraps a lisp error) + (throw V) over 8 thrown objects + nested try; under a prelude defining a throwing function, a throwing macro and an outer let variable",
 			Setup:  func(t string) { tier = t; rg = newEvalRig(false); rg.ntTraceOnly = true },
 			N:      func(t string) int64 { tier = t; return gOf().Count(0, wOf(t)) },
 			Describe: func(i int64) string { return c03Wrap(gOf().Unrank(0, i)).Lisp() },
@@ -104,14 +105,28 @@ func init() {
 			},
 		}
 		var rgd *evalRig
+		// an hour, fifty years, and the "never expires" idiom
+		c03Deadlines := []struct {
+			name string
+			at   func() time.Time
+		}{
+			{"an hour away", func() time.Time { return time.Now().Add(time.Hour) }},
+			{"fifty years away", func() time.Time { return time.Now().AddDate(50, 0, 0) }},
+			{"in the year 9999", func() time.Time { return time.Date(9999, 12, 31, 23, 59, 59, 0, time.UTC) }},
+		}
 		famD := &vf.Family{
 			Name:   "try-nests-under-deadline",
-			Bounds: "the same try forms, evaluated under a caller context whose deadline is an hour away (EVAL then splits the remaining time between body and handler+finally; nothing times out, so the outcome must be the one without a deadline)",
+			Bounds: "the same try forms, evaluated under a caller context whose deadline is an hour away, fifty years away, and in the year 9999 (EVAL then splits the remaining time between body and handler+finally; nothing times out, so the outcome must be the one without a deadline)",
 			Setup:  func(t string) { tier = t; rgd = newEvalRig(false); rgd.ntTraceOnly = true; rgd.farDeadline = true },
-			N:      func(t string) int64 { tier = t; return gOf().Count(0, wOf(t)) },
-			Describe: func(i int64) string { return c03Wrap(gOf().Unrank(0, i)).Lisp() + "   ; under a context with a far deadline" },
+			N:      func(t string) int64 { tier = t; return gOf().Count(0, wOf(t)) * int64(len(c03Deadlines)) },
+			Describe: func(i int64) string {
+				n := int64(len(c03Deadlines))
+				return c03Wrap(gOf().Unrank(0, i/n)).Lisp() + "   ; under a context whose deadline is " + c03Deadlines[i%n].name
+			},
 			Run: func(i int64, r *vf.Rec) {
-				rgd.compareWithModel(c03Wrap(gOf().Unrank(0, i)), []string{"e", "x"}, r, true)
+				n := int64(len(c03Deadlines))
+				rgd.deadlineAt = c03Deadlines[i%n].at()
+				rgd.compareWithModel(c03Wrap(gOf().Unrank(0, i/n)), []string{"e", "x"}, r, true)
 			},
 		}
 		return &vf.Check{
